@@ -74,7 +74,15 @@ type Env struct {
 
 // Logf appends to the run's event log (hashed for the determinism check).
 // It never draws randomness nor reads a clock.
-func (e *Env) Logf(format string, a ...any) { e.log = append(e.log, fmt.Sprintf(format, a...)) }
+func (e *Env) Logf(format string, a ...any) {
+	e.log = append(e.log, fmt.Sprintf(format, a...))
+	if dbgLog {
+		fmt.Println(e.log[len(e.log)-1])
+	}
+}
+
+// dbgLog echoes the event log while a replay is being debugged.
+var dbgLog = false
 
 // Prop is one property check.
 type Prop interface {
